@@ -2,7 +2,8 @@
    Print Assumptions.  Every theorem holds for ALL leaf-forecaster, transformer and meta-regressor
    semantics (the section variables), all series, horizons and update histories. *)
 From Coq Require Import ZArith QArith List Bool Permutation Sorted.
-Require Import SkV.Lib.Base SkV.C09.Model SkV.C09.Cases SkV.C09.Proofs.
+Require Import SkV.Lib.Base SkV.C09.Model SkV.C09.Cases SkV.C09.Proofs SkV.C09.SiteLib SkV.C09.Site
+        SkV.C09.Bridge.
 Import ListNotations.
 Open Scope Z_scope.
 
@@ -134,6 +135,51 @@ Section Statements.
     In (ERFit g (holdout_forecasts' ms y fh) (stack_ymeta y fh)) (snd (fit' (Stack' g r ms) y fh)).
   Proof. exact (stack_meta_trained_on_holdout leaf lpar lfit lpred tr tpar tfit tupd tapp tinv
                   tskip thasupd reg rpar rfit rpred). Qed.
+  (* ---- through the bridge: the functions REGENERATED from the source on this run (Site.v, with the
+     members tied to the model's recursion in Bridge.v) are the model's, at every kind of node ... *)
+  Local Notation G_fit' :=
+    (G_fit leaf lpar lfit lpred tr tpar tfit tupd tapp tinv tskip thasupd reg rpar rfit rpred).
+  Local Notation G_update' :=
+    (G_update leaf lpar lfit tr tpar tfit tupd tapp tinv tskip thasupd reg rpar rfit rpred).
+  Local Notation G_predict' :=
+    (G_predict leaf lpar lpred tr tpar tfit tupd tapp tinv tskip thasupd reg rpar rfit rpred).
+  Local Notation G_state' :=
+    (G_state leaf lpar lfit lpred tr tpar tfit tupd tapp tinv tskip thasupd reg rpar rfit rpred).
+
+  Theorem C09_site_functions_are_the_model :
+    (forall f y fh, G_fit' f y fh = fit' f y fh) /\
+    (forall s y up, G_update' s y up = update' s y up) /\
+    (forall s, G_predict' s = predict' s).
+  Proof.
+    exact (conj (bridge_fit leaf lpar lfit lpred tr tpar tfit tupd tapp tinv tskip thasupd reg rpar
+                            rfit rpred)
+          (conj (bridge_update leaf lpar lfit tr tpar tfit tupd tapp tinv tskip thasupd reg rpar rfit
+                               rpred)
+                (bridge_predict leaf lpar lpred tr tpar tfit tupd tapp tinv tskip thasupd reg rpar
+                                rfit rpred))).
+  Qed.
+
+  (* ... hence the property's sentences hold of what the source says today: *)
+  Theorem C09_site_ensemble_is_aggregate_of_members : forall a ms y fh ups,
+    fst (G_predict' (G_state' (Ens' a ms) y fh ups)) =
+    agg_series a (map (fun m => fst (G_predict' (G_state' m y fh ups))) ms).
+  Proof. exact (site_ensemble_is_aggregate_of_members leaf lpar lfit lpred tr tpar tfit tupd tapp tinv
+                  tskip thasupd reg rpar rfit rpred). Qed.
+
+  Theorem C09_site_pipeline_is_chain : forall ts f y fh,
+    exists fs, fitted_chain' ts y fs (fwd' fs y) /\
+      fst (G_fit' (Pipe' ts f) y fh) = SPipe' (base_fit y fh) fs (fst (fit' f (fwd' fs y) fh)) /\
+      fst (G_predict' (fst (G_fit' (Pipe' ts f) y fh))) =
+        inv_spec' fs (fst (predict' (fst (fit' f (fwd' fs y) fh)))).
+  Proof. exact (site_pipeline_is_chain leaf lpar lfit lpred tr tpar tfit tupd tapp tinv tskip thasupd
+                  reg rpar rfit rpred). Qed.
+
+  Theorem C09_site_multiplex_is_selected : forall sel ms m y fh ups,
+    nth_error ms sel = Some m ->
+    fst (G_predict' (G_state' (Mux' sel ms) y fh ups)) = fst (G_predict' (G_state' m y fh ups)).
+  Proof. exact (site_multiplex_is_selected leaf lpar lfit lpred tr tpar tfit tupd tapp tinv tskip
+                  thasupd reg rpar rfit rpred). Qed.
+
 End Statements.
 
 (* the held-out window is the final window and lies strictly after everything the members that
@@ -185,6 +231,10 @@ Print Assumptions C09_pipeline_is_chain.
 Print Assumptions C09_pipeline_final_only_sees_transformed.
 Print Assumptions C09_pipeline_update_calls.
 Print Assumptions C09_pipeline_empty_batch_is_noop.
+Print Assumptions C09_site_functions_are_the_model.
+Print Assumptions C09_site_ensemble_is_aggregate_of_members.
+Print Assumptions C09_site_pipeline_is_chain.
+Print Assumptions C09_site_multiplex_is_selected.
 Print Assumptions C09_pipeline_step_receives_running_transform.
 Print Assumptions C09_multiplex_is_selected.
 Print Assumptions C09_multiplex_state.
